@@ -55,6 +55,10 @@ MIN_OUTCOMES = {"quick": 3500, "thorough": 15000}
 MIN_SUB_TRACES = {"programs": 25000, "copy": 500}
 
 KINDS = ("ImageBatch", "Image", "FlowFields", "FlowField")
+# batches whose item grids contain pairs that compare equal under Grid.__eq__ (allclose, align_corners ignored) without
+# being identical: same geometry with the other flag, origin shifted by 1e-5 (positions (0,1), (1,2), (0,N-1))
+KINDS_NEAR = ("ImageBatch~near", "FlowFields~near")
+NEAR_SHIFT = 1e-5
 
 
 # ---------------------------------------------------------------------------
@@ -92,10 +96,24 @@ class Universe:
 
     _cache: dict = {}
 
-    def __init__(self, D):
+    def __init__(self, D, near=False):
         self.D = D
+        self.near = near
         self.shape, self.gspecs = _specs(D)
         self.N = len(self.gspecs) - 1  # the last grid ("X") belongs to no item
+        # grids actually attached to the items (the DATA always encodes the distinct nominal geometry `gspecs`)
+        self.rspecs = [dict(g) for g in self.gspecs]
+        if near:
+            def shifted(g):
+                o = list(g["origin"])
+                o[0] = o[0] + NEAR_SHIFT
+                return dict(g, origin=tuple(o))
+
+            g0 = self.gspecs[0]
+            self.rspecs[1] = dict(g0, ac=not g0["ac"])
+            self.rspecs[2] = shifted(self.rspecs[1])
+            self.rspecs[self.N - 1] = shifted(g0)
+        self._expected = {}
         n = int(np.prod(self.shape))
         lin = np.arange(n, dtype=np.float64).reshape(self.shape)
         # index lattice with x first: idx[..., 0] = x index = last tensor dim
@@ -126,10 +144,10 @@ class Universe:
                         tab[key] = (i, c)
 
     @classmethod
-    def get(cls, D):
-        if D not in cls._cache:
-            cls._cache[D] = Universe(D)
-        return cls._cache[D]
+    def get(cls, D, near=False):
+        if (D, near) not in cls._cache:
+            cls._cache[(D, near)] = Universe(D, near)
+        return cls._cache[(D, near)]
 
     # which items an initial value holds
     def items(self, kind, which):
@@ -157,7 +175,7 @@ class Universe:
 
         tpl = self._templates.get(i)
         if tpl is None:
-            g = self.gspecs[i]
+            g = self.rspecs[i]
             tpl = Grid(
                 size=tuple(reversed(self.shape)),
                 spacing=tuple(float(v) for v in g["spacing"]),
@@ -189,30 +207,39 @@ class Universe:
         return FlowField(data, grids[0], Axes(self.axes_name(kind)))
 
     def grid_attrs(self, i):
-        g = self.gspecs[i]
-        R = np.array(g["direction"], dtype=np.float64)
-        s = np.array(g["spacing"], dtype=np.float64)
-        o = np.array(g["origin"], dtype=np.float64)
-        n = np.array(self.shape[::-1], dtype=np.float64)
-        return n, s, o, R, bool(g["ac"])
+        """Attributes of the grid attached to item i (i == N: the extra grid X), observed on the private template that
+        the public constructor built: exact float32 values, so that results can be compared bit by bit."""
+        if i not in self._expected:
+            self.real_grid(i)
+            self._expected[i] = observe_grid(self._templates[i])
+        return self._expected[i]
 
 
 def observe_grid(g):
-    """(size, spacing, origin, direction, ac) of a real Grid through its public accessors (float64)."""
+    """(size, spacing, origin, direction, ac, center) of a real Grid through its public accessors (float32 read as float64)."""
     n = np.array([int(v) for v in g.size()], dtype=np.float64)
-    s = g.spacing().detach().double().numpy()
-    o = g.origin().detach().double().numpy()
-    R = g.direction().detach().double().numpy()
-    return n, s, o, R, bool(g.align_corners())
+    s = g.spacing().detach().double().numpy().copy()
+    o = g.origin().detach().double().numpy().copy()
+    R = g.direction().detach().double().numpy().copy()
+    c = g.center().detach().double().numpy().copy()
+    return n, s, o, R, bool(g.align_corners()), c
 
 
 def same_attrs(a, b) -> bool:
+    """Tolerant comparison (a grid that was legitimately re-derived may differ by float32 rounding)."""
     if a[0].shape != b[0].shape or not np.array_equal(a[0], b[0]):
         return False
     if a[4] != b[4]:
         return False
     # all source values are small integers; 1e-3 is 3 orders above float32 rounding and 3 below any mix-up
     return bool(np.all(np.abs(a[1] - b[1]) < 1e-3) and np.all(np.abs(a[2] - b[2]) < 1e-3) and np.all(np.abs(a[3] - b[3]) < 1e-3))
+
+
+def exact_attrs(a, b) -> bool:
+    """Exact comparison: same flag and bit-identical size, spacing, center and direction (not Grid.__eq__)."""
+    if a[0].shape != b[0].shape or a[4] != b[4]:
+        return False
+    return all(np.array_equal(a[k], b[k]) for k in (0, 1, 3, 5))
 
 
 # ---------------------------------------------------------------------------
@@ -656,6 +683,13 @@ MENU2 = MENU + [
     "narrow(0,-2,2)",
 ]
 assert all(n in OPS for n in MENU2) and len(set(MENU2)) == len(MENU2)
+# second operation for the near-equal-grid batches in the quick tier: everything that copies, clones or regroups grids
+MENU_NEAR = [
+    "clone()", "torch.clone", "clone(contiguous_format)", "copy.copy", "copy.deepcopy", "pickle", "pickle(protocol=2)",
+    "torch.save_load", "deepcopy(list)", "detach()", "iter", "getitem(1:)", "getitem(list(2,0))", "cat(x,x;dim=0)",
+    "cat(x,other;dim=0)", "split(1)", "flip(0)", "roll(1,0)", "double()", "add(1)",
+]
+assert all(n in OPS for n in MENU_NEAR)
 
 
 def dims_for(tier):
@@ -665,7 +699,9 @@ def dims_for(tier):
 def bounds(tier):
     return {
         "dimensions": list(dims_for(tier)),
-        "initial_values_per_dimension": len(KINDS),
+        "initial_values_per_dimension": len(KINDS) + len(KINDS_NEAR),
+        "near_equal_grid_batches": list(KINDS_NEAR),
+        "second_operation_menu_near": len(MENU_NEAR) if tier == "quick" else len(ORDER),
         "items_per_batch": {"D2": 5, "D3": 6},
         "alphabet": len(ORDER),
         "menu_for_length_3": len(MENU),
@@ -784,15 +820,21 @@ def judge_value(U: Universe, kind: str, R, aff, mixed=False, regrid=False):
         gshape = tuple(int(v) for v in a[0][::-1])
         if gshape != spatial:
             problems.append(("grid-shape", f"entry {k}: grid shape {gshape} but data spatial shape {spatial}"))
-    gids = []
+    gids = []  # index of the source grid an entry carries: exact match first, else first tolerant match, else -1
+    exact_ids, approx_ids = [], []
     for a in gattrs:
-        gid = -1
-        if a is not None:
-            for i in range(U.N + 1):
-                if same_attrs(a, U.grid_attrs(i)):
-                    gid = i
-                    break
-        gids.append(gid)
+        ex = [i for i in range(U.N + 1) if a is not None and exact_attrs(a, U.grid_attrs(i))]
+        ap = [i for i in range(U.N + 1) if a is not None and same_attrs(a, U.grid_attrs(i))]
+        exact_ids.append(ex)
+        approx_ids.append(ap)
+        gids.append(ex[0] if ex else (ap[0] if ap else -1))
+
+    def carries(k, i):
+        """Entry k carries the grid of item i: bit-exact, or re-derived within rounding and not bit-exactly the grid of
+        ANOTHER item (items may have grids that differ only in the flag or by 1e-5 in the origin)."""
+        if i in exact_ids[k]:
+            return True
+        return i in approx_ids[k] and not exact_ids[k]
     axes = None
     if is_flow(R):
         st, ax = guarded(R.axes)
@@ -820,10 +862,10 @@ def judge_value(U: Universe, kind: str, R, aff, mixed=False, regrid=False):
             carried = f"the grid of source item {gids[k]}" if 0 <= gids[k] < U.N else ("the grid X" if gids[k] == U.N else "a grid of no source item")
             if regrid:
                 # the in-place setter grid_(X) was the last word on the grid of every entry of this value
-                if intact and gids[k] != U.N:
+                if intact and not carries(k, U.N):
                     problems.append(("stale-grid-after-grid_", f"entry {k} (data of item {i}) carries {carried} although grid_(X) set the grid X"))
                 continue
-            if intact and gids[k] != i:
+            if intact and not carries(k, i):
                 problems.append(("wrong-item-grid", f"entry {k} holds the data of source item {i} but carries {carried}"))
             elif not intact and gids[k] >= 0 and gids[k] != i:
                 # voxels rearranged inside the item: the exact grid is not promised, but another item's grid is wrong
@@ -857,7 +899,7 @@ def judge_copy(U, kind, x, R):
             problems.append(("copy-grids", f"{len(gb)} grids instead of {len(ga)}"))
         else:
             for k, (p, q) in enumerate(zip(ga, gb)):
-                st, same = guarded(lambda: same_attrs(observe_grid(p), observe_grid(q)))
+                st, same = guarded(lambda: exact_attrs(observe_grid(p), observe_grid(q)))
                 if st == "raises" or not same:
                     problems.append(("copy-grids", f"grid of entry {k} differs after copying"))
                     break
@@ -882,7 +924,8 @@ class Run:
     """One program executed from fresh values (deepali value + plain twin + affine)."""
 
     def __init__(self, D, kind):
-        self.U = Universe.get(D)
+        self.U = Universe.get(D, near=kind.endswith("~near"))
+        kind = kind.split("~")[0]
         self.kind = kind
         self.ci = Ctx(self.U, kind, plain=False)
         self.cp = Ctx(self.U, kind, plain=True)
@@ -961,12 +1004,12 @@ def execute(D, kind, steps, acc: Acc = None):
             undef_all = []
             cont = []
             if OPS[name][0] == "copy":
-                for problem, detail in judge_copy(run.U, kind, x_before, r):
+                for problem, detail in judge_copy(run.U, run.kind, x_before, r):
                     out.append((sig_of(name, in_type, problem), detail))
                 info["copy"] = True
             for k, el in enumerate(els):
                 if typed(el):
-                    problems, obs, undefs = judge_value(run.U, kind, el, aff, run.mixed, run.regrid)
+                    problems, obs, undefs = judge_value(run.U, run.kind, el, aff, run.mixed, run.regrid)
                     for problem, detail in problems:
                         out.append((sig_of(name, in_type, problem), (f"element {k}: " if len(els) > 1 else "") + detail))
                     obs_all.append(obs)
@@ -1002,6 +1045,11 @@ def shards(tier: str, seed: int):
         for kind in KINDS:
             for j, name in enumerate(ORDER):
                 out.append({"tier": tier, "D": D, "kind": kind, "first": name})
+        for kind in KINDS_NEAR:
+            # small second menu in the quick tier: several first operations per shard (one fork per shard)
+            step = 8 if tier == "quick" else 1
+            for j in range(0, len(ORDER), step):
+                out.append({"tier": tier, "D": D, "kind": kind, "first": ORDER[j : j + step]})
     return out
 
 
@@ -1033,7 +1081,8 @@ def _explore(acc: Acc, tier, D, kind, steps, depth_full, depth_menu):
         return
     in_menu = all(n in MENU for n in names)
     if depth_full > 1:
-        nxt, df, dm = (MENU2 if tier == "quick" else ORDER), depth_full - 1, depth_menu - 1
+        second = ORDER if tier != "quick" else (MENU_NEAR if kind.endswith("~near") else MENU2)
+        nxt, df, dm = second, depth_full - 1, depth_menu - 1
     elif depth_menu > 1 and in_menu:
         nxt, df, dm = MENU, 0, depth_menu - 1
     else:
@@ -1053,7 +1102,9 @@ def run_shard(shard) -> Acc:
     depth_menu = 3 if (tier == "thorough" and shard["D"] == 2) else 2
     Universe.get(shard["D"])
     acc.state("initial", shard["D"], shard["kind"])
-    _explore(acc, tier, shard["D"], shard["kind"], [[shard["first"], None]], 2, depth_menu)
+    firsts = shard["first"] if isinstance(shard["first"], list) else [shard["first"]]
+    for first in firsts:
+        _explore(acc, tier, shard["D"], shard["kind"], [[first, None]], 2, depth_menu)
     return acc
 
 
